@@ -1420,7 +1420,7 @@ theorem beforeEnd_eq (env : Env) (s : App) (b : Block) :
       simp only
       cases poaBegin env.lim s2 <;> rfl
 
-/-- a block of a power-adjustment history: every validator votes, no evidence, quiet transactions, and at the
+/-- a block of a power-adjustment history: x/slashing punishes nobody, no evidence, quiet transactions, and at the
     EndBlocker the index fits under `MaxValidators` (no D7) and the powers stay within CometBFT's maximum -/
 structure QuietBlock (s : App) (c : CSet) (b : Block) : Prop where
   votes : VotesOk { s with height := s.height + 1, time := s.time + b.dt } b.votes
